@@ -1301,12 +1301,36 @@ def e2e_part(ctx, n_variants):
                 f.write(data)
             with open(os.path.join(pd, "proj", "default.yaml"), "w") as f:
                 f.write("archive:\n  backend: file\n  path: %s\n" % os.path.join(pd, "arch"))
-            return label, bob(["build", "root", "--download=forced"], os.path.join(pd, "proj"))
+            r1 = bob(["build", "root", "--download=forced"], os.path.join(pd, "proj"))
+            # what every user does after a failed build: the very same command again (seed C08-2: the project state
+            # must not have recorded the rejected workspace as a valid download); then the intact artifact arrives
+            r2 = bob(["build", "root", "--download=forced"], os.path.join(pd, "proj"))
+            with open(os.path.join(pd, "arch", rel), "wb") as f:
+                f.write(orig)
+            r3 = bob(["build", "root", "--download=forced"], os.path.join(pd, "proj"))
+            got = None
+            try:
+                with open(os.path.join(pd, "proj", "work", "root", "dist", "1", "workspace", "d", "e", "f"), "rb") as f:
+                    got = f.read()
+            except OSError:
+                pass
+            return label, r1, r2, r3, got
         from concurrent.futures import ThreadPoolExecutor
         with ThreadPoolExecutor(max_workers=4) as ex:
             results = list(ex.map(one, enumerate(variants)))
-        for label, r in results:
-            ctx.evaluated()
+        for label, r, r2, r3, got in results:
+            ctx.evaluated(3)
+            if label != "untampered-repack":
+                ctx.count("e2e-retry:%s:%s" % (label, "built" if r2.returncode == 0 else "failed"))
+                if r.returncode != 0 and r2.returncode == 0:
+                    ctx.violation("builder-accepted-tampered-artifact-on-retry:" + label,
+                                  "the repeated bob build --download=forced succeeded with the tampered artifact (%s) that the first run "
+                                  "had rejected" % label, {"kind": "e2e", "label": label, "log": r2.stdout[-1500:]})
+                ctx.count("e2e-recover:%s:%s" % (label, "built" if r3.returncode == 0 else "failed"))
+                if r.returncode != 0 and r2.returncode != 0 and (r3.returncode != 0 or got != b"hello\n"):
+                    ctx.violation("intact-artifact-rejected-after-corrupt-one:" + label,
+                                  "after a rejected tampered artifact (%s) the intact artifact is not downloaded (exit %d, content %r)"
+                                  % (label, r3.returncode, got), {"kind": "e2e", "label": label, "log": r3.stdout[-1500:]})
             ctx.nontrivial(("e2e", label))
             ok = r.returncode == 0
             ctx.count("e2e:%s:%s" % (label, "built" if ok else "failed"))
